@@ -47,13 +47,14 @@ var All = []*Prop{
 	},
 	{
 		ID:    "C01",
-		Rules: []*core.Rule{rules.PanicPayload, rules.ASTDispatch, rules.SelfAssert, rules.NilDesc, rules.Recover, rules.Classifier},
+		Rules: []*core.Rule{rules.PanicPayload, rules.ASTDispatch, rules.SelfAssert, rules.NilDesc, rules.Recover, rules.Classifier, rules.ReflectSafe},
 		Explanation: "Clauses decided: the engine's own ways of producing a non-documented panic are closed. " +
 			"R-PANICPAYLOAD classifies every panic(x) of the module (~500) by the static type of x: a type the boundary classifiers accept (derived from exceptionFromValue's case list, the uncatchableException implementers and compileAST on each run), a Value implementer, a re-panic of a recovered/classified value, a panic made unreachable by a preceding no-return call, or an internal assertion in the audited per-function table; a new string/error panic anywhere else is reported. " +
 			"R-ASTDISPATCH: every type switch over an interface of goja/ast whose default ends in an internal diagnostic covers every concrete ast type implementing the interface (go/types), up to an audited table of node types that the grammar only places in slots handled by the parent. " +
 			"R-SELFASSERT: every unchecked assertion X.self.(*Kind) is justified (built as that kind, previously asserted on a dominating edge, promiseResolve's verified result, or audited). " +
 			"R-NILDESC: optional PropertyDescriptor fields are never dereferenced without a nil test (inter-procedural dereference summary). " +
-			"R-RECOVER/R-CLASSIFIER (see C14): no recover swallows or misclassifies a payload.",
+			"R-RECOVER/R-CLASSIFIER (see C14): no recover swallows or misclassifies a payload. " +
+			"R-REFLECTSAFE: script operations on reflect-backed host objects never reach a panicking form of package reflect (FieldByIndex; Index beyond Len()) - see C13.",
 		Technique:  "panic-operand typing with classifier sets derived from the code, no-return dominance, type-switch exhaustiveness over go/types, justified-assertion and nil-dereference rules with inter-procedural summaries",
 		DesignRef:  "DESIGN.md section 4, C01",
 		NotCovered: "Go runtime panics at arbitrary sites (index out of range, nil dereference other than the descriptor clause, failed assertions on values other than X.self), operand-stack balance of emitted bytecode (e.g. the dummy-mode break/try interaction), parser panics guarded by length precomputation: properties of run-time data",
@@ -177,10 +178,11 @@ var All = []*Prop{
 	},
 	{
 		ID:    "C13",
-		Rules: []*core.Rule{rules.ExportCycle, rules.ExportCache, rules.WrapperTxn, rules.SpareCap},
+		Rules: []*core.Rule{rules.ExportCycle, rules.ExportCache, rules.WrapperTxn, rules.SpareCap, rules.ReflectSafe},
 		Explanation: "Clause decided: 'exporting a script-built object graph preserves sharing and cycles within one export' and, as its safety half, 'no export recursion aborts the host'. R-EXPORTCYCLE enumerates every implementation of objectImpl.export / exportToMap / exportToArrayOrSlice (and the generic helpers); each one that contains a recursion point into the object's own contents (exportValue, X.self.export, toReflectValue) must (a) for the untyped variant look its own object up with ctx.get and recurse only on the miss edge, (b) register its own object with ctx.put/putTyped on every path before each recursion point (dominance); typed variants must only be invoked on the miss edge of ctx.getTyped. Pure pass-through to another object's implementation is recognised as delegation. " +
 			"R-EXPORTCACHE: inside the cache itself an image once recorded is never forgotten - in put/putTyped a freshly made per-type table is stored into ctx.cache[key] only on the miss edge of the lookup or after the previous entry was copied into it. " +
-			"R-WRAPPERTXN ('host values wrapped by ToValue are live views'): overwriting a slot of a reflect-backed struct/array whose wrapper was handed out is detach -> convert -> (drop from cache | re-attach): on the err != nil edge of toReflectValue the detached wrapper is re-attached with setReflectValue, and the cache entry is removed only under err == nil.",
+			"R-WRAPPERTXN ('host values wrapped by ToValue are live views'): overwriting a slot of a reflect-backed struct/array whose wrapper was handed out is detach -> convert -> (drop from cache | re-attach): on the err != nil edge of toReflectValue the detached wrapper is re-attached with setReflectValue, and the cache entry is removed only under err == nil. R-SPARECAP applies the spare-capacity discipline to valueArrayCache (shrink clears what it cuts off; grow re-slices into capacity). " +
+			"R-REFLECTSAFE: script-chosen indexes and field paths never reach the panicking forms of package reflect - no (reflect.Value).FieldByIndex, and every (reflect.Value).Index(i) is compared with a Len() first (locally, at every call site of a helper incl. bound-method thunks, or by constructing the destination with that length).",
 		Technique:  "get/put-before-recursion dominance over SSA for every implementation of the export interface methods; controlling-condition classification of map updates and of the two outcomes of a fallible conversion",
 		DesignRef:  "DESIGN.md section 4, C13",
 		NotCovered: "round-trip identity ToValue/Export, ExportTo deep equality, live-view aliasing of wrapped structs/maps/slices beyond the overwrite transaction: reflection-driven, value- and history-level",
